@@ -87,6 +87,7 @@ func TestProp(t *testing.T) {
 	ps, err := sut.NewProxyStack(sut.ProxyOpts{Upstreams: []sut.UpstreamSpec{
 		{Service: "grp", From: "grp.sso.test", AllowedGroups: []string{"eng", "ops"}},
 		{Service: "dom", From: "dom.sso.test", AllowedEmailDomains: []string{"corp.test"}},
+		{Service: "grp2", From: "grp2.sso.test", AllowedGroups: []string{"sec"}},
 	}})
 	if err != nil {
 		rep.Inconclusive("proxy stack did not start: " + err.Error())
@@ -150,6 +151,7 @@ func TestProp(t *testing.T) {
 	}
 	if env.Replay == "" {
 		runSharedTokenPairs(rep, env, ps)
+		runCrossUpstreamRevocation(rep, env, ps)
 		rep.Floor("steps_served", 200)
 		rep.Floor("steps_served_after_due_check", 100)
 		rep.Floor("steps_refused_after_denial", 100)
@@ -434,7 +436,6 @@ func gapClass(g time.Duration) string {
 	return ">L"
 }
 
-
 // runSharedTokenPairs: two browser sessions of one user that share their tokens (the same authenticator
 // session, logged in at the proxy hours apart, or a cookie copied to a second device) have checks due
 // at the same moment; the authenticator holds its answer so the two provider calls overlap and may be
@@ -537,4 +538,106 @@ type sessionsPair struct {
 	name     string
 	lifetime time.Time
 	sealed   string
+}
+
+// runCrossUpstreamRevocation: one user (same tokens) holds sessions on two group-gated upstreams; the
+// user has meanwhile left the groups of ONE of them. Both revalidations fall due together and the
+// authenticator holds its answer so they overlap: the upstream the user has left must still refuse the
+// request and clear the cookie - the other upstream's positive check must not count for it. (Seeded
+// change C04g: one provider client per provider slug shared by all upstreams, so that request coalescing
+// merges the two revalidations.)
+func runCrossUpstreamRevocation(rep *vh.Report, env vh.Env, ps *sut.ProxyStack) {
+	n := env.Pick(60, 900)
+	vh.ForEach(n, 8, -1, func(i int) {
+		r := vh.CaseRNG(env.Seed, "c04-cross-upstream", i)
+		uid := sut.NewID()
+		email := "user" + uid + "@corp.test"
+		stay, left := "grp.sso.test", "grp2.sso.test" // still in {eng, ops}; no longer in {sec}
+		refreshDue := r.Intn(2) == 0
+		mk := func(host, group string) string {
+			s := ps.Session(host, email, []string{group})
+			s.AccessToken, s.RefreshToken = "cat-"+uid, "crt-"+uid
+			s.ValidDeadline = time.Now().Add(-3 * time.Minute)
+			if refreshDue {
+				s.RefreshDeadline = time.Now().Add(-3 * time.Minute)
+			}
+			return ps.CookieName + "=" + ps.Seal(s)
+		}
+		hold := make(chan struct{})
+		nt := "cnt-" + uid
+		primary, key := "validate", "cat-"+uid
+		if refreshDue {
+			primary, key = "refresh", "crt-"+uid
+			a := sut.RefreshOK(nt, 3600)
+			a.Hold = hold
+			ps.Auth.Set(primary, key, a)
+		} else {
+			a := sut.ValidateOK()
+			a.Hold = hold
+			ps.Auth.Set(primary, key, a)
+		}
+		ps.Auth.Set("profile", "cat-"+uid, sut.ProfileFaithful(email, []string{"eng", "everyone"}))
+		ps.Auth.Set("profile", nt, sut.ProfileFaithful(email, []string{"eng", "everyone"}))
+		defer func() {
+			ps.Auth.Unset(primary, key)
+			ps.Auth.Unset("profile", "cat-"+uid)
+			ps.Auth.Unset("profile", nt)
+		}()
+		first, second := stay, left
+		c1, c2 := mk(stay, "eng"), mk(left, "sec")
+		if r.Intn(3) == 0 {
+			first, second, c1, c2 = second, first, c2, c1
+		}
+		type res struct {
+			host string
+			rs   *sut.Resp
+		}
+		out := make(chan res, 2)
+		go func() {
+			out <- res{first, ps.Client.Do(sut.Req{Host: first, Target: "/x/" + uid, Cookies: []string{c1}})}
+		}()
+		overlapped := false
+		for w := 0; w < 2000; w++ {
+			if ps.Auth.MaxInflight(primary, key) >= 1 {
+				overlapped = true
+				break
+			}
+			time.Sleep(time.Millisecond)
+		}
+		go func() {
+			out <- res{second, ps.Client.Do(sut.Req{Host: second, Target: "/x/" + uid, Cookies: []string{c2}})}
+		}()
+		time.Sleep(time.Duration(5+r.Intn(20)) * time.Millisecond)
+		close(hold)
+		rep.Eval()
+		for k := 0; k < 2; k++ {
+			x := <-out
+			if x.rs.Err != nil {
+				rep.Count("client_errors", 1)
+				continue
+			}
+			served := len(ps.Hits(x.rs.ID)) > 0
+			_, _, cleared := x.rs.Cookie(ps.CookieName)
+			kc := map[string]interface{}{"index": i, "host": x.host, "check_due": primary, "status": x.rs.Status, "served": served, "cleared": cleared}
+			if x.host == left {
+				if served {
+					rep.Violate("c04-cross-upstream", i, "served-despite-denial at=profile(group-removed) overlapping-check-on-other-upstream due="+primary,
+						"the user has left this upstream's groups, a check was due, yet the request was served while the same user's check on another upstream was in flight", kc)
+				} else {
+					rep.Count("cross_upstream_left_group_refused", 1)
+					if !cleared {
+						rep.Violate("c04-cross-upstream", i, "denied-but-cookie-not-cleared at=profile overlapping-check-on-other-upstream", fmt.Sprintf("status %d", x.rs.Status), kc)
+					}
+				}
+			} else if served {
+				rep.Count("cross_upstream_still_member_served", 1)
+			}
+		}
+		if overlapped {
+			rep.Count("cross_upstream_pairs_overlapped", 1)
+			rep.Distinct(fmt.Sprintf("cross-upstream|%s|first=%s", primary, first))
+		}
+	})
+	rep.Floor("cross_upstream_pairs_overlapped", 20)
+	rep.Floor("cross_upstream_left_group_refused", 20)
 }
